@@ -165,7 +165,7 @@ def one_run(cfg):
     # path
     try:
         pp = [np.asarray(x.gTAA()).reshape(-1) for x in path]
-        if np.max(np.abs(pp[0] - np.array(start))) > 1e-12 or np.max(np.abs(pp[-1] - goal.gTAA().reshape(-1))) > 1e-12:
+        if G.gt(np.max(np.abs(pp[0] - np.array(start))), 1e-12) or G.gt(np.max(np.abs(pp[-1] - goal.gTAA().reshape(-1))), 1e-12):
             out['viol'].append(('path-ends', 'path does not start at the start pose / end with the goal'))
         byorder = {tuple(np.round(nodes[v]['pos'], 12)): v for v in nodes}
         ids = [byorder.get(tuple(np.round(q, 12))) for q in pp[:-1]]
